@@ -1010,8 +1010,25 @@ def tlc_all(tier):
     return out
 
 
+class _WithCase:
+    """Check proxy that stores the complete emitted state (input and expectation) with a violation,
+    so that --replay can re-run it"""
+
+    def __init__(self, chk, case):
+        self._chk, self._case = chk, case
+
+    def violation(self, clause, info, finding_key=None):
+        info = dict(info)
+        info["full"] = self._case
+        return self._chk.violation(clause, info, finding_key=finding_key)
+
+    def __getattr__(self, name):
+        return getattr(self._chk, name)
+
+
 def replay_one(chk, case, L, F, tmp):
     m = case["m"]
+    chk = _WithCase(chk, case)
     if m in ("tri2", "tri3"):
         replay_tri(chk, case, L, F)
     elif m == "ang":
@@ -1093,14 +1110,21 @@ def run(tier, replay=None):
     tmp = common.scratch_dir("verif_x01_")
     try:
         if replay:
-            case = common.load_replay(replay)
-            print(json.dumps(case, indent=1)[:6000])
-            c = case.get("case", {})
-            if isinstance(c, dict) and c.get("m") in ("lin", "sq", "tab", "moi", "gauss", "leg", "wig", "pack", "fit"):
-                replay_one(chk, c, L, None, tmp)
-                print("replayed:", "VIOLATION " + chk.violations[0][0] if chk.violations else "ok")
-                return 1 if chk.violations else 0
-            return 0
+            stored = common.load_replay(replay)
+            c = stored.get("case", {})
+            c = c.get("full", c) if isinstance(c, dict) else {}
+            print(json.dumps({"clause": stored.get("clause"), "case": c}, indent=1)[:8000])
+            if "m" not in c:
+                print("replay: a trace record (direction B); re-run the check with the same VERIF_SEED to reproduce")
+                return 0
+            F = None
+            if c["m"] in ("tri2", "tri3", "ang"):
+                r = run_tlc_sharded("MC_Geometry", dict(constants={"Tier": tier, "Mode": "formulas"}, invariants=["Emit"]), nshards=1)
+                require_model_ok(r, "MC_Geometry formulas")
+                F = r.cases[0]
+            replay_one(chk, c, L, F, tmp)
+            print("replayed:", ("VIOLATION " + chk.violations[0][0]) if chk.violations else "ok (no violation on this tree)")
+            return 1 if chk.violations else 0
         import time
         T0 = time.time()
         phases = {}
